@@ -7,6 +7,14 @@
 open Model
 open Vutil
 
+(* Blake2b-256 of the model, memoised (the extracted functions take the hash as a parameter) *)
+let hash_tbl : (string, byte list) Hashtbl.t = Hashtbl.create 4096
+let hash_memo (x : byte list) : byte list =
+  let k = string_of_bytes x in
+  match Hashtbl.find_opt hash_tbl k with
+  | Some h -> h
+  | None -> let h = hash256 x in Hashtbl.add hash_tbl k h; h
+
 (* ---------------------------------------------------------------- rendering *)
 let nib_of_bytes (l : byte list) : string =
   if l = [] then "-" else begin
@@ -147,8 +155,8 @@ let check inp obs =
     let pos = ref 1 in
     let t = parse_tree tok pos in
     if not (wf_node t) then fail "C07: generator produced an ill-formed tree";
-    let enc = encode hash256 t in
-    let expected = if is_c then cnode_str (cview hash256 t) else dnode_str (view hash256 t) in
+    let enc = encode hash_memo t in
+    let expected = if is_c then cnode_str (cview hash_memo t) else dnode_str (view hash_memo t) in
     let m_dec = if is_c then cres_str (codec_decode st enc) else dres_str (node_decode st enc) in
     let m = hex_of_bytes enc ^ " " ^ m_dec in
     let o_dec = rest_after obs in
